@@ -17,6 +17,7 @@
  *   verify_pk2                  -> R verify_pk2 <0|1>     (last signature, current message, other public key)
  *   tamper <field> <delta>      modify the last signature (field names below) -> R tamper ok
  *   restore                     undo all tampering (restores the saved signature)
+ *   siginfo                     dim2 only: -> R sig chall_b chall_coeff m00 m01 m10 m11 (hex)
  *   encinfo                     heuristic only: -> R enc f a n x b0 d0 b1 d1 c0 e0 hb   (hex)
  *   tav <x>                     -> R tav <two_adic_valuation((int)x)>   (x decimal int64)
  */
@@ -128,7 +129,7 @@ tamper(const char *field, long delta)
     if (!strcmp(field, "hint_aux1")) { sig.hint_aux[1] += (int)delta; return 1; }
     if (!strcmp(field, "hint_chall0")) { sig.hint_chall[0] += (int)delta; return 1; }
     if (!strcmp(field, "hint_chall1")) { sig.hint_chall[1] += (int)delta; return 1; }
-    if (!strcmp(field, "E_aux")) { for (long i = 0; i < delta; i++) fp_add(&sig.E_aux.A.re, &sig.E_aux.A.re, &one); return 1; }
+    if (!strcmp(field, "E_aux")) { for (long i = 0; i < delta; i++) fp_add(&sig.E_aux.A.re, &sig.E_aux.A.re, &one); sig.E_aux.is_A24_computed_and_normalized = 0; return 1; }
 #elif VERIF_VARIANT == 1
     if (!strcmp(field, "two_resp_length")) { sig.two_resp_length += (int)delta; return 1; }
     if (!strcmp(field, "hint_b")) { sig.hint_b ^= 1; return 1; }
@@ -141,8 +142,8 @@ tamper(const char *field, long delta)
     if (!strcmp(field, "e0_adjust")) { add_small(&sig.e0_adjust, delta); return 1; }
     if (!strcmp(field, "hint_aux0")) { sig.hint_aux[0] += (int)delta; return 1; }
     if (!strcmp(field, "hint_aux1")) { sig.hint_aux[1] += (int)delta; return 1; }
-    if (!strcmp(field, "E_aux")) { for (long i = 0; i < delta; i++) fp_add(&sig.E_aux.A.re, &sig.E_aux.A.re, &one); return 1; }
-    if (!strcmp(field, "E_aux_pk")) { sig.E_aux = pk.curve; return 1; }
+    if (!strcmp(field, "E_aux")) { for (long i = 0; i < delta; i++) fp_add(&sig.E_aux.A.re, &sig.E_aux.A.re, &one); sig.E_aux.is_A24_computed_and_normalized = 0; return 1; }
+    if (!strcmp(field, "E_aux_pk")) { sig.E_aux = pk.curve; sig.E_aux.is_A24_computed_and_normalized = 0; return 1; }
     if (!strcmp(field, "zero_matrix")) {
         ibz_set(&sig.b0, 0); ibz_set(&sig.d0, 0); ibz_set(&sig.b1, 0); ibz_set(&sig.d1, 0);
         ibz_set(&sig.c0_adjust, 0); ibz_set(&sig.e0_adjust, 0);
@@ -254,6 +255,12 @@ main(void)
             if (have_saved)
                 sig_copy(&sig, &saved);
             printf("R restore %d\n", have_saved);
+#if VERIF_VARIANT == 0
+        } else if (!strncmp(line, "siginfo", 7)) {
+            gmp_printf("R sig %d %Zx %Zx %Zx %Zx %Zx\n", sig.chall_b, sig.chall_coeff, sig.mat_Bchall_can_to_B_chall[0][0],
+                       sig.mat_Bchall_can_to_B_chall[0][1], sig.mat_Bchall_can_to_B_chall[1][0],
+                       sig.mat_Bchall_can_to_B_chall[1][1]);
+#endif
 #if VERIF_VARIANT == 1
         } else if (!strncmp(line, "encinfo", 7)) {
             gmp_printf("R enc %d %d %Zx %Zx %Zx %Zx %Zx %Zx %Zx %d\n", TORSION_PLUS_EVEN_POWER,
